@@ -41,7 +41,7 @@ def mk_elem(t):
         return t[2]
     if t[0] == "call" and t[1] == "filter_map" and len(t[2]) == 2 and t[2][1][0] == "lam":
         # the payload of the closure's Some(..) (Some is transparent), expressed over elem(recv)
-        return t[2][1][1]
+        return _some_payload(t[2][1][1])
     if t[0] == "call" and t[1] in ("filter", "inspect") and len(t[2]) == 2:
         return mk_elem(t[2][0])
     if t[0] == "call" and t[1] == "zip" and len(t[2]) == 2:
@@ -49,6 +49,16 @@ def mk_elem(t):
     if t[0] == "call" and t[1] == "enumerate" and len(t[2]) == 1:
         return ("tuple", (("index", t[2][0]), mk_elem(t[2][0])))
     return ("elem", t)
+
+
+def _some_payload(t):
+    """`match x { <pat> => Some(v), _ => None }` as the body of a filter_map closure: the one alternative that is not None (the
+    conditions under which it is taken are judged by the rules that look at the closure itself)"""
+    if t[0] == "case" and len(t) == 3:
+        vals = [a[1] for a in t[2] if a[1] != ("ctor", "None", ())]
+        if len(vals) == 1 and len(t[2]) >= 2:
+            return _some_payload(vals[0])
+    return t
 
 
 def mk_proj(i, t):
